@@ -25,6 +25,7 @@ func checkC06(c *Ctx) {
 	r.Rule("C06.Q4-close", "Close: wg.Wait on all paths; close(stopCh)+token on the CAS path; loop goroutine tracked and started only with the token", 3)
 	r.Rule("C06.Q5-not-early", "execute only when due within <=500µs or after the timer for that item fired", 2)
 	r.Rule("C06.Q6-enqueue", "Enqueue inserts with replace=true and always calls process(); reset signal when already running", 3)
+	r.Rule("C06.Q8-signals", "reset/running tokens are 1-slot channels; every reset received by the loop leads to a fresh Peek before anything is armed or executed", 4)
 	r.Rule("C06.Q7-order", "heap Less = ScheduledTime(i).Before(ScheduledTime(j))", 1)
 
 	q := p.ModPath + "/events/queue"
@@ -41,6 +42,7 @@ func checkC06(c *Ctx) {
 	c06NotEarly(c, loop)
 	c06Enqueue(c, lockID)
 	c06Order(c)
+	c06Signals(c, loop)
 
 	c.Fixture("c06exit", func(fp *Prog, fr *Report) {
 		fe := NewLockEngine(fp)
@@ -567,4 +569,102 @@ func c06IndexParam(v ssa.Value, fn *ssa.Function) int {
 		}
 	}
 	return -1
+}
+
+// c06Signals: channel capacities of the token channels, and the handling of a
+// received reset signal.
+func c06Signals(c *Ctx, loop *ssa.Function) {
+	r, p := c.R, c.P
+	q := p.ModPath + "/events/queue"
+	want := map[string]int64{"resetCh": 1, "processorRunningCh": 1, "stopCh": 0}
+	seen := map[string]bool{}
+	for _, fn := range p.FuncsOfPkg("events/queue") {
+		allInstrs(fn, func(in ssa.Instruction) {
+			st, ok := in.(*ssa.Store)
+			if !ok {
+				return
+			}
+			fa, ok := st.Addr.(*ssa.FieldAddr)
+			if !ok || fieldIDOfAddr(fa).Type != q+".Processor" {
+				return
+			}
+			f := fieldIDOfAddr(fa).Field
+			capWant, tracked := want[f]
+			if !tracked {
+				return
+			}
+			seen[f] = true
+			mc, isMake := st.Val.(*ssa.MakeChan)
+			okCap := false
+			if isMake {
+				if k, ok := mc.Size.(*ssa.Const); ok && k.Value != nil && k.Int64() == capWant {
+					okCap = true
+				}
+			}
+			msg := map[string]string{
+				"resetCh":            "the reset signal is posted without blocking while the poster holds the lock; with no slot to park it, a reset posted while the loop is between its Peek and its select is dropped and an earlier item waits for the previous head's timer (with more than one slot stale resets accumulate)",
+				"processorRunningCh": "the running token must be a 1-slot channel: 0 blocks the first Enqueue forever, 2 lets two loops pop the same queue",
+				"stopCh":             "stopCh is a close-only signal",
+			}[f]
+			r.Check(okCap, c06Prefix+"Q8-signals", FuncName(p, fn)+" makes Processor."+f, p.Pos(st.Pos()), fmt.Sprintf("capacity %d", capWant), msg)
+		})
+	}
+	for f := range want {
+		if !seen[f] {
+			r.Undecide("no initialisation of queue.Processor.%s found", f)
+		}
+	}
+	// reset handling: from the body of every receive case on resetCh the loop reaches the Peek
+	// again before it arms a timer or executes anything
+	resetCh := "field:" + q + ".Processor.resetCh"
+	var peekBlk *ssa.BasicBlock
+	danger := map[*ssa.BasicBlock]string{}
+	allInstrs(loop, func(in ssa.Instruction) {
+		call, ok := in.(*ssa.Call)
+		if !ok {
+			return
+		}
+		if obj := calleeObj(call); obj != nil {
+			switch obj.Name() {
+			case "Peek":
+				if !call.Call.IsInvoke() {
+					peekBlk = call.Block()
+				}
+			case "NewTimer", "execute", "ScheduledTime":
+				danger[call.Block()] = obj.Name()
+			}
+		}
+	})
+	n := 0
+	allInstrs(loop, func(in ssa.Instruction) {
+		sel, ok := in.(*ssa.Select)
+		if !ok {
+			return
+		}
+		si := decodeSelect(sel)
+		for _, cs := range si.Cases {
+			if cs.Dir != types.RecvOnly || cs.Chan != resetCh || cs.Body == nil {
+				continue
+			}
+			n++
+			bad := ""
+			if peekBlk == nil {
+				bad = "the loop no longer peeks the queue"
+			} else if cs.Body != peekBlk {
+				for blk := range reachableFrom(cs.Body, map[*ssa.BasicBlock]bool{peekBlk: true}) {
+					if what, ok := danger[blk]; ok {
+						bad = "after receiving a reset signal the loop can reach " + what + " (at " + p.Pos(instrPos(blk.Instrs[0])) + ") without peeking the queue again: it goes on with the old head although an earlier item was enqueued, which then runs late"
+					}
+				}
+			}
+			kind := "non-blocking"
+			if sel.Blocking {
+				kind = "blocking"
+			}
+			r.Check(bad == "", c06Prefix+"Q8-signals", fmt.Sprintf("events/queue.Processor.processLoop reset case (%s select)", kind), p.Pos(instrPos(sel)), "a received reset restarts the loop at Peek", bad)
+		}
+	})
+	if n < 2 {
+		r.Violation(c06Prefix+"Q8-signals", "events/queue.Processor.processLoop reset case", p.Pos(loop.Pos()), "the loop must listen for the reset signal both before arming the timer and while waiting on it; a missing case leaves an earlier item waiting for the previous head's timer")
+	}
 }
